@@ -13,6 +13,7 @@ Decided
   A3  grouped_mean = per-present-id sum / count; _unique = ids with a non-zero count among the non-negative entries (increasing);
       _flatten_per_cluster = sorted distinct union
   +   on EVERY return path of the model queries the selection goes through the right assignment vector (a dictionary keyed by template ids looked up with a cluster id is a conflict)
+  +   EVERY selecting return of _spikes_in_clusters is a membership test (a fast path by id range / equality is a violation)
 Not decided: exact partition at value level, behaviour for negative ids beyond _unique's documented filtering.
 """
 import ast
@@ -181,7 +182,15 @@ def run(ctx):
     rvs = [x for _, x in returned(sic)]
     goods = ['np.nonzero(np.isin(%s, %s))[0]' % (a0_, a1_), 'np.flatnonzero(np.isin(%s, %s))' % (a0_, a1_), 'np.where(np.isin(%s, %s))[0]' % (a0_, a1_),
              'np.nonzero(np.in1d(%s, %s))[0]' % (a0_, a1_), 'np.flatnonzero(np.in1d(%s, %s))' % (a0_, a1_)]
-    g = any(Pat().any(goods, x) for x in rvs)
+    # EVERY return that selects spikes does so by membership (the empty-input return is an empty literal): a fast path selecting by an id RANGE or by equality with
+    # one element answers unsorted / duplicated requests with other spikes
+    sel = [x for x in rvs if not Pat().any(['np.array([], REST)', 'np.array([])', 'np.zeros(0, REST)', 'np.empty(0, REST)', '[]'], x)]
+    rng = [x for x in sel if not Pat().any(goods, sic.expand(x)) and not any(isinstance(n, ast.Call) and dotted(n.func) in ('np.isin', 'np.in1d') for n in ast.walk(sic.expand(x))) and
+           any(isinstance(n, ast.Compare) and any(isinstance(o, (ast.Lt, ast.LtE, ast.Gt, ast.GtE, ast.Eq)) for o in n.ops) for n in ast.walk(sic.expand(x)))]
+    if rng:
+        ctx.violated('C07.A2', sic, rng[0], 'a return of _spikes_in_clusters selects spikes by comparisons (`%s`), not by membership in the requested ids: correct only for sorted, duplicate-free, '
+                     'consecutive requests' % unparse(sic.expand(rng[0]))[:80])
+    g = bool(sel) and all(Pat().any(goods, sic.expand(x)) for x in sel)
     b_ = not g and any(isinstance(n, ast.UnaryOp) and isinstance(n.op, (ast.Invert, ast.Not)) for x in rvs for n in ast.walk(x)) or \
         (not g and any(Pat().any([t_.replace('(%s, %s)' % (a0_, a1_), '(%s, %s)' % (a1_, a0_)) for t_ in goods], x) for x in rvs))
     if g:
